@@ -588,7 +588,8 @@ class Parser:
                 raise FFIError(
                     "multiple declarations of %s (for interactive usage, "
                     "try cdef(xx, override=True))" % (name,))
-        assert '__dotdotdot__' not in name.split()
+        if '__dotdotdot__' in name.split():
+            raise CDefError("'__dotdotdot__' is a reserved name")
         self._declarations[name] = (obj, quals)
         if included:
             self._included_declarations.add(obj)
